@@ -17,6 +17,26 @@ pub fn string_wire(sx: &str) -> String {
     format!("{} {}", v.len(), v.join(" "))
 }
 
+/// A hand-written (corpus) line carries character flags somebody else computed; the flags on the wire must always be the
+/// ones THIS harness computes with std's char methods (the model classifies characters by them), so such a line is
+/// re-encoded from its code points before it is issued.
+pub fn normalise_line(l: &str) -> String {
+    let w: Vec<&str> = l.split_ascii_whitespace().collect();
+    let skip = match w.first() {
+        Some(&"parse") => 2,
+        Some(&"lexd") | Some(&"lexc") => 1,
+        _ => return l.to_string(),
+    };
+    if w.len() <= skip {
+        return l.to_string();
+    }
+    let mut it = w[skip..].iter().copied();
+    match read_string(&mut it) {
+        Some(sx) => format!("{} {}", w[..skip].join(" "), string_wire(&sx)),
+        None => l.to_string(),
+    }
+}
+
 fn read_string<'a, I: Iterator<Item = &'a str>>(it: &mut I) -> Option<String> {
     let n: usize = it.next()?.parse().ok()?;
     let mut out = String::new();
